@@ -19,7 +19,9 @@ MODULES = ["xrefs", "cell", "containers", "tokenizer", "formula", "model", "docu
 
 
 class LoopSpec:
-    def __init__(self, invariants, decreases=None, modifies=(), hints=(), index=None, havoc=()):
+    def __init__(self, invariants, decreases=None, modifies=(), hints=(), index=None, havoc=(), kinds=None, steps=()):
+        self.kinds = dict(kinds or {})
+        self.steps = list(steps)  # cut assertions proved (then assumed) at the end of the body, before the invariants
         self.invariants = [invariants] if isinstance(invariants, str) or callable(invariants) else list(invariants)
         self.decreases, self.modifies, self.hints, self.index, self.havoc = decreases, modifies, hints, index, havoc
 
@@ -30,7 +32,9 @@ class Contract:
                  result="none", effects=None, exc_ensures=(), entry=None, assumed=False, note="", ghost=None,
                  canaries=(), covers=(), max_unroll=8, use=None, label="", ghost_params=None, split_cases=(),
                  replay=None, search=None, timeout=None, order=None, gen=None,
-                 ascii_strings=(), ascii_hints=(), steps=(), model=None, opaque=None, when=None, yield_grid=None, use_labels=None):
+                 ascii_strings=(), ascii_hints=(), steps=(), model=None, opaque=None, when=None, yield_grid=None, use_labels=None, cover_hints=(), local_views=None):
+        self.local_views = dict(local_views or {})
+        self.cover_hints = _l(cover_hints)
         self.yield_grid = yield_grid
         self.use_labels = dict(use_labels or {})
         self.when = when
